@@ -356,8 +356,7 @@ Section Spec.
                 (remaining ks) &&
         forallb (fun b => plural_ok ks b (mget b out)) (merged_bases ks) &&
         (* warnings *)
-        incl_b warning_eqb ws (expected_warnings path ks) && incl_b warning_eqb (expected_warnings path ks) ws &&
-        Nat.eqb (length ws) (length (expected_warnings path ks))
+        incl_b warning_eqb ws (expected_warnings path ks) && incl_b warning_eqb (expected_warnings path ks) ws
     | RErr k p =>
         match split_last p with
         | Some (pre, b) =>
@@ -389,4 +388,68 @@ Definition spec_cross (levels : list (list (str * ival))) (outs : list kmap) : b
 Definition lone_other (levels : list (list (str * ival))) : bool :=
   existsb (fun ks => existsb (fun b => Nat.eqb (length (members ks b)) 1 && existsb (has_form Other) (members ks b))
                              (all_merged_bases levels)) levels.
+
+(** * Second pass over the locales of a namespace: a lone `<key>_other` (fix C05-lone-other)
+
+    `LocalesOrNamespaces::merge_plurals_inner`: every locale is merged ([merge_level], the key paths of the created
+    plurals are recorded), then `Locale::merge_lone_plurals` turns a `<b>_other` / `<b>_ordinal_other` that was left
+    alone into a plural with no other form when `b` is a plural in at least one locale.  Top level only (path []). *)
+
+Section Lone.
+  Variable is_key : str -> bool.
+  Variable ext : str -> bool.                 (* plural_keys.contains(path + [b]) *)
+
+  Definition lone_candidate (kv : str * oval) : option (str * rule * N) :=
+    match snd kv with
+    | Kept (Leaf id) =>
+        match classify (fst kv) (Leaf id) with
+        | Some (b, r, Other, _) => if is_key b && ext b then Some (b, r, id) else None
+        | _ => None
+        end
+    | _ => None      (* range tables, sub-objects, and the plurals of the first pass *)
+    end.
+
+  Definition lone_step (st : kmap * list (str * rule * N)) (kv : str * oval) : kmap * list (str * rule * N) :=
+    match lone_candidate kv with
+    | Some c => (fst st, snd st ++ [c])
+    | None => (minsert (fst kv) (snd kv) (fst st), snd st)
+    end.
+
+  Fixpoint lone_insert (path : list str) (lone : list (str * rule * N)) (keys : kmap) : res :=
+    match lone with
+    | [] => ROk keys []
+    | (b, r, id) :: rest =>
+        if mmem b keys then RErr ECollide (path ++ [b])
+        else lone_insert path rest (minsert b (PluralV r id []) keys)
+    end.
+
+  Definition lone_pass (path : list str) (keys : kmap) : res :=
+    let '(rest, lone) := fold_left lone_step keys ([], []) in lone_insert path lone rest.
+End Lone.
+
+Inductive pres := POk (outs : list kmap) | PErr (k : errk) (p : list str) | PPanic.
+
+Definition plural_bases (out : kmap) : list str :=
+  flat_map (fun kv => match snd kv with PluralV _ _ _ => [fst kv] | _ => [] end) out.
+
+(** run [f] on every element, stop at the first error *)
+Fixpoint seq_res {A} (f : A -> res) (l : list A) : pres :=
+  match l with
+  | [] => POk []
+  | x :: r =>
+      match f x with
+      | ROk out _ => match seq_res f r with POk outs => POk (out :: outs) | e => e end
+      | RErr k p => PErr k p
+      | RPanic => PPanic
+      end
+  end.
+
+Definition merge_project (is_key : str -> bool) (cats : rule -> list form) (levels : list (list (str * ival))) : pres :=
+  match seq_res (merge_level is_key cats []) levels with
+  | POk outs1 =>
+      let ext := fun b => existsb (fun out => mem_str b (plural_bases out)) outs1 in
+      if forallb (fun out => match plural_bases out with [] => true | _ => false end) outs1 then POk outs1
+      else seq_res (lone_pass is_key ext []) outs1
+  | e => e
+  end.
 
